@@ -304,6 +304,7 @@ def factor_sites(ctx: Ctx):
         ("rl4co/tasks/eval.py", "GreedyMultiStartEval._inner", ("batchify", "unbatchify"), False),
         ("rl4co/tasks/eval.py", "GreedyMultiStartAugmentEval._inner", ("batchify", "unbatchify"), False),
     ]
+    pending = {}
     for rel, fn, names, exact in specs:
         fi = ctx.repo.get_function(rel, fn)
         ctx.fn(fi)
@@ -313,7 +314,8 @@ def factor_sites(ctx: Ctx):
                 f = node.args[-1]
                 facs.append((node.func.id, ast.unparse(f), node.lineno))
         if len(facs) < 2:
-            raise AnalysisError(f"{fn}: expected several (un)batchify calls, found {len(facs)}")
+            pending[fn] = f"{fn}: expected several (un)batchify calls, found {len(facs)}"
+            continue
         if exact:
             ok = len({t for _, t, _ in facs}) == 1
         else:
@@ -334,9 +336,25 @@ def factor_sites(ctx: Ctx):
         if len(pairs) < floor:
             raise AnalysisError(f"{fn}: expected >= {floor} (argmax, gather) pairs, found {len(pairs)}")
         bad = [(g, m, ag, am, agree) for g, m, ag, am, agree in pairs if ag is None or am is None or ag != am or agree is False]
-        ok = not bad
+        # operands regrouped by a plain view(-1, k) / reshape(-1, k): that splits the flat axis instance-major, but replicas are laid out (replica, batch)
+        wrong_split = []
+        for g, m, ag, am, agree in pairs:
+            red = m.args[0] if m.op == "meth" else m.args[1]
+            srcs = [red] + ([g.args[1]] if len(g.args) > 1 and isinstance(g.args[1], vg.S) else [])
+            for x in srcs:
+                for a in _alts(x):
+                    while isinstance(a, vg.S) and a.op == "nograd":
+                        a = a.args[0]
+                    if a.op == "meth" and a.args[1] in ("view", "reshape") and len(a.args) >= 4 and vg.is_const(a.args[2], -1) and not a.args[3].op == "const":
+                        wrong_split.append(vg.show(a, 3))
+        ok = not bad and not wrong_split
         why = f"{len(pairs)} (argmax, gather) pair(s): " + "; ".join(f"max over {am}, gather on {ag}" + ("" if agree is None else f", same regrouping factor: {agree}") for _, _, ag, am, agree in pairs[:4])
+        if wrong_split:
+            why += f" -- operand regrouped as {wrong_split[0]}: view(-1, k) groups k CONSECUTIVE rows, but the k replicas of instance b sit at rows b, b+B, b+2B, ... (batch-minor layout): best-of mixes different instances"
+            pending.pop(fn, None)
         ctx.ob("C12.c", f"{fn}:best-of", ok, fi.loc, why, construct=f"{fn}:best-of-axis")
+    if pending:
+        raise AnalysisError("; ".join(pending.values()))
 
 
 def start_nodes(ctx: Ctx):
